@@ -1367,6 +1367,14 @@ private:
       return false;
     }
 
+    if (lc.tls == TlsMode::Server && !(_config.serverTls.enabled && _sslSrv))
+    {
+      // A TLS listener without a server context would accept plaintext connections.
+      err(TransportError::Config, "TLS listener requested but server TLS is not configured");
+      ::close(sfd);
+      return false;
+    }
+
     auto lst = std::make_unique<Listener>();
     lst->id = lc.id;
     lst->fd = sfd;
@@ -1654,6 +1662,20 @@ private:
       std::memcpy(&s->peer, &savedPeer, savedPeerLen);
     }
 
+    if (cr.tls == TlsMode::Client && !(_config.clientTls.enabled && _sslCli))
+    {
+      // TLS was asked for but no client context exists: never fall back to plaintext.
+      decltype(_cbs.onClose) closeCb;
+      { std::lock_guard<std::mutex> g(_cbMutex); closeCb = _cbs.onClose; }
+      if (closeCb)
+      {
+        closeCb(cr.sid, TransportErrorInfo{TransportError::TLSHandshake, "TLS requested but client TLS is not configured"});
+      }
+      err(TransportError::TLSHandshake, "TLS requested but client TLS is not configured");
+      cancelConnectTimeout(s.get());
+      ::close(cfd);
+      return false; // not inserted yet => no tags to clean
+    }
     if (cr.tls == TlsMode::Client && _config.clientTls.enabled && _sslCli)
     {
       s->tlsMode = TlsMode::Client;
